@@ -724,12 +724,57 @@ def seed_sample_branch_events(ctx, rule="GUARD-seed-sample-branch"):
         ctx.bad(rule, construct, "outvals = flat_keyful_sampler(fresh sub-key, *args, **inner_params)", f"found {[short(c, ev, 160) for c in set(samplers)]}", loc)
 
 
+def impure_dispatch(s, ev, need):
+    """Arms of a Jaxpr interpreter must be selected by the interpreted equation's primitive alone.  Returns {arm kinds: (extra condition,
+    line)} for guard conditions that test the primitive against one of `need` *and* something else: equations of that primitive failing the
+    extra test fall through to the generic re-bind, where the sampling sites / tags inside their sub-jaxprs are not interpreted (a lane-wise
+    draw is broadcast, a seeded site stays unseeded, a saved value is lost)."""
+    from .c16 import bool_atoms
+
+    def is_eqn(x):
+        return x[0] == "iter" and x[2][0] == "attr" and x[2][2] == "eqns" and x[2][1][0] == "param"
+
+    def is_prim(t):
+        if t[0] == "attr" and t[2] == "primitive" and is_eqn(t[1]):
+            return True
+        return t[0] == "idx" and is_const(t[2], 0) and is_call(t[1], name=PJ + "PPPrimitive.unwrap") and len(t[1][2]) == 1 and is_prim(t[1][2][0])
+
+    def isname(t):
+        return (t[0] == "name" and t[1].split(".")[-1].endswith("_p")) or (t[0] in ("tuple", "list", "set") and all(isname(y) for y in t[1]))
+
+    def pure(a):
+        if a[0] == "cmp" and a[1] in ("==", "is", "in", "!=", "is not", "not in"):
+            return (is_prim(a[2]) and isname(a[3])) or (is_prim(a[3]) and isname(a[2]))
+        if is_call(a, name=PJ + "PPPrimitive.check") and len(a[2]) == 2:
+            return is_prim(a[2][0]) and isname(a[2][1])
+        return False
+    impure = {}
+    for g, k, pl, ln, q in s.events:
+        for c, v in g:
+            if not isinstance(c, tuple) or not c or c[0] == "loop":
+                continue
+            atoms = []
+            bool_atoms(c, atoms)
+            pk = {PRIMS[x[1]] for a in atoms if pure(a) for x in subterms(a) if x[0] == "name" and x[1] in PRIMS} & need
+            if not pk:
+                continue
+            for a in atoms:
+                if not pure(a):
+                    impure.setdefault(tuple(sorted(pk)), (a, ln))
+    return impure
+
+
 def dispatch_sets_events(ctx, rule="SIB-interpreter-dispatch"):
     want = {"sample", "adev_sample", "cond", "scan"}
     for cls, meth in (("Seed", "eval_jaxpr_seed"), ("ModularVmap", "eval_jaxpr_modular_vmap")):
         ev = mk_ev(ctx)
         dotted = PJ + cls + "." + meth
         s = summarize(ctx, ev, dotted)
+        for ks, (a, ln) in sorted(impure_dispatch(s, ev, want).items()):
+            ctx.bad("EXH-interpreter-dispatch", f"pjax.{cls}.{meth}[{'+'.join(ks)}]", "arm selected by the primitive alone",
+                    f"the {'/'.join(ks)} arm is additionally conditional on {short(a, ev, 120)}: equations of that primitive failing the test are re-bound as they are, "
+                    "so sampling sites nested deeper in their sub-jaxprs are not interpreted (under modular_vmap one draw is broadcast to every lane; under seed the "
+                    "site is left unseeded)", f"{s.module.path}:{ln}")
         got = set()
         for k in events_by_kind(s):
             got |= (k - {"else", "common"})
